@@ -74,6 +74,15 @@ type rowTimes2 struct {
 	Last  time.Time
 }
 
+// two date columns whose formats read the same text differently (month first,
+// day first): each column goes by its own format, whatever text another one
+// has just read
+type rowTrade struct {
+	Trade  time.Time `format:"01/02/2006"`
+	Settle time.Time `format:"02/01/2006"`
+	Qty    int
+}
+
 // Named types of the supported kinds, all of which print differently from
 // their underlying value (fmt.Stringer): the codec goes by kind.
 type (
@@ -587,6 +596,14 @@ func c11(ctx *run.Ctx) {
 				return &rowTimes2{Day: randTime(r, true), Stamp: randTime(r, false), N: r.Range(-9, 9), Again: randTime(r, false).Truncate(time.Minute), Last: randTime(r, false)}
 			}, true)
 		}},
+		{"rowTrade/header", func(cc *run.Case) bool {
+			return csvFileHistory(cc, "rowTrade", func(r *gen.Rand) *rowTrade {
+				// month and day are both at most 12 and swapped between the columns:
+				// the two cells of a row hold the SAME text and mean different days
+				y, m, d := r.Pick(1999, 2024, 2031), r.Range(1, 12), r.Range(1, 12)
+				return &rowTrade{Trade: time.Date(y, time.Month(m), d, 0, 0, 0, 0, time.UTC), Settle: time.Date(y, time.Month(d), m, 0, 0, 0, 0, time.UTC), Qty: r.Range(1, 500)}
+			}, true)
+		}},
 		{"rowNamed/noheader", func(cc *run.Case) bool { return csvFileHistory(cc, "rowNamed", genRowNamed, false) }},
 		{"rowNum/noheader", func(cc *run.Case) bool {
 			return csvFileHistory(cc, "rowNum", func(r *gen.Rand) *rowNum { return &rowNum{randInt(r, 64), randFloat(r), r.Bool()} }, false)
@@ -775,6 +792,17 @@ func c11JSON(cc *run.Case) bool {
 		snaps[i] = asset.Snapshot{Date: randTime(r, true).UTC(), Open: fs[i], High: fs[i] + 1.5, Low: fs[i] - 2.25, Close: fs[i] + 0.125, Volume: float64(r.Range(0, 1e6))}
 	}
 	if !jsonRound(cc, "asset.Snapshot", snaps, func(a, b asset.Snapshot) bool {
+		return a.Date.Equal(b.Date) && a.Open == b.Open && a.High == b.High && a.Low == b.Low && a.Close == b.Close && a.Volume == b.Volume
+	}) {
+		return false
+	}
+	// sessions dated at local midnight of the exchange's zone: the instant survives
+	zoned := make([]asset.Snapshot, n)
+	for i := range zoned {
+		loc := time.FixedZone([]string{"EST", "JST", "CET", ""}[i%4], []int{-5, 9, 1, -9}[i%4]*3600)
+		zoned[i] = asset.Snapshot{Date: time.Date(2024, time.Month(1+i%12), 1+i%28, 0, 0, 0, 0, loc), Open: fs[i], High: fs[i] + 1, Low: fs[i] - 1, Close: fs[i], Volume: 1}
+	}
+	if !jsonRound(cc, "asset.Snapshot (midnights of other zones)", zoned, func(a, b asset.Snapshot) bool {
 		return a.Date.Equal(b.Date) && a.Open == b.Open && a.High == b.High && a.Low == b.Low && a.Close == b.Close && a.Volume == b.Volume
 	}) {
 		return false
